@@ -133,6 +133,41 @@ def ascii (s : String) : List Byte := s.toList.map Char.toNat
 def dropTrailingZeros (ds : List Byte) : List Byte :=
   (ds.reverse.dropWhile (· == 48)).reverse
 
+/-- the `%G` layout of the significant digits `ds` of a number `d.ddd… · 10^x`: scientific style for `x < -4` or `x ≥ 15`
+    (the precision), fixed style otherwise; trailing zeros and a bare decimal point are dropped -/
+def fmtDigits (sg ds : List Byte) (x : Int) : List Byte :=
+  if x < -4 || x ≥ 15 then
+    let fracPart := dropTrailingZeros (ds.drop 1)
+    let ex := x.natAbs
+    let exd : List Byte := (Nat.toDigits 10 ex).map Char.toNat
+    let exd := if exd.length < 2 then 48 :: exd else exd
+    sg ++ ds.take 1 ++ (if fracPart.isEmpty then [] else 46 :: fracPart) ++ [69] ++ [if x < 0 then 45 else 43] ++ exd
+  else if x ≥ 0 then
+    let ip := ds.take (x.toNat + 1)
+    let fracPart := dropTrailingZeros (ds.drop (x.toNat + 1))
+    sg ++ ip ++ (if fracPart.isEmpty then [] else 46 :: fracPart)
+  else
+    let fracPart := dropTrailingZeros (List.replicate ((-x).toNat - 1) 48 ++ ds)
+    sg ++ [48, 46] ++ fracPart
+
+/-- 15 significant decimal digits of the positive rational `n/d`: `(q, x)` with `q = round(n/d / 10^(x-14))`, a 15-digit
+    number, and `10^x ≤ n/d < 10^(x+1)` (after the carry of a round-up to `10^15`) -/
+def sig15 (n d : Nat) : Nat × Int :=
+  -- X with 10^X ≤ n/d < 10^(X+1)
+  let ge (x : Int) : Bool := if x ≥ 0 then d * 10 ^ x.toNat ≤ n else d ≤ n * 10 ^ (-x).toNat
+  let x0 : Int := ((Nat.toDigits 10 n).length : Int) - ((Nat.toDigits 10 d).length : Int)
+  let x : Int := if ge (x0 + 1) then x0 + 1 else if ge x0 then x0 else x0 - 1
+  let sh : Int := x - 14
+  let q : Nat := if sh ≥ 0 then roundDiv n (d * 10 ^ sh.toNat) else roundDiv (n * 10 ^ (-sh).toNat) d
+  if q == 10 ^ 15 then (10 ^ 14, x + 1) else (q, x)
+
+/-- the finite non-zero case of `%.15G`: sign, significand `m`, binary exponent `e2` -/
+def fmtFinite (sg : List Byte) (m : Nat) (e2 : Int) : List Byte :=
+  let n : Nat := if e2 ≥ 0 then m * pow2 e2.toNat else m
+  let d : Nat := if e2 ≥ 0 then 1 else pow2 (-e2).toNat
+  let p := sig15 n d
+  fmtDigits sg ((Nat.toDigits 10 p.1).map Char.toNat) p.2     -- exactly 15 digits
+
 /-- `sprintf("%.15G")` of a bit pattern -/
 def fmtG15 (bits : Nat) : List Byte :=
   let neg := bits / signBit % 2 == 1
@@ -141,33 +176,7 @@ def fmtG15 (bits : Nat) : List Byte :=
   let sg : List Byte := if neg then [45] else []
   if be == 2047 then sg ++ (if fr == 0 then ascii "INF" else ascii "NAN")
   else if be == 0 && fr == 0 then sg ++ [48]
-  else
-    let m : Nat := if be == 0 then fr else fr + pow2 52
-    let e2 : Int := if be == 0 then -1074 else (be : Int) - 1075
-    let n : Nat := if e2 ≥ 0 then m * pow2 e2.toNat else m
-    let d : Nat := if e2 ≥ 0 then 1 else pow2 (-e2).toNat
-    -- X with 10^X ≤ n/d < 10^(X+1)
-    let ge (x : Int) : Bool := if x ≥ 0 then d * 10 ^ x.toNat ≤ n else d ≤ n * 10 ^ (-x).toNat
-    let x0 : Int := ((Nat.toDigits 10 n).length : Int) - ((Nat.toDigits 10 d).length : Int)
-    let x : Int := if ge (x0 + 1) then x0 + 1 else if ge x0 then x0 else x0 - 1
-    -- 15 significant digits: q = round(n/d / 10^(x-14))
-    let sh : Int := x - 14
-    let q : Nat := if sh ≥ 0 then roundDiv n (d * 10 ^ sh.toNat) else roundDiv (n * 10 ^ (-sh).toNat) d
-    let (q, x) : Nat × Int := if q == 10 ^ 15 then (10 ^ 14, x + 1) else (q, x)
-    let ds : List Byte := (Nat.toDigits 10 q).map Char.toNat     -- exactly 15 digits
-    if x < -4 || x ≥ 15 then
-      let fracPart := dropTrailingZeros (ds.drop 1)
-      let ex := x.natAbs
-      let exd : List Byte := (Nat.toDigits 10 ex).map Char.toNat
-      let exd := if exd.length < 2 then 48 :: exd else exd
-      sg ++ ds.take 1 ++ (if fracPart.isEmpty then [] else 46 :: fracPart) ++ [69] ++ [if x < 0 then 45 else 43] ++ exd
-    else if x ≥ 0 then
-      let ip := ds.take (x.toNat + 1)
-      let fracPart := dropTrailingZeros (ds.drop (x.toNat + 1))
-      sg ++ ip ++ (if fracPart.isEmpty then [] else 46 :: fracPart)
-    else
-      let fracPart := dropTrailingZeros (List.replicate ((-x).toNat - 1) 48 ++ ds)
-      sg ++ [48, 46] ++ fracPart
+  else fmtFinite sg (if be == 0 then fr else fr + pow2 52) (if be == 0 then -1074 else (be : Int) - 1075)
 
 /-- `(double)FLT_MIN` = 2^-126 -/
 def realNullBits : Nat := (1023 - 126) * pow2 52
